@@ -489,9 +489,40 @@ def diff_single(x, y):
     return None
 
 
-def apply_obj(o, rho, B):
-    """action of a state / gate on matrices, for the mixture identity"""
-    raise NotImplementedError
+def depol_case(c_sys, mode, name, obj, p, g):
+    """depolarised generation of one base (catalogue name, or `obj` handed in as a QOperation) at rate p: the stated
+    mixture in matrix form on random input states, and physicality.  Returns [(tag, what)] of the problems found."""
+    B = qobj.basis_mats(c_sys)
+    d = c_sys.dim
+    mat = lambda v: sum(x * b for x, b in zip(v, B))  # noqa
+    X = obj if obj is not None else generate_qoperation(mode, name, c_sys)
+    try:
+        Y = DepolarizedQOperationGenerationSetting(c_sys, X if obj is not None else (mode, name), p).generate()
+    except Exception as e:  # noqa
+        return [("raises", f"{name}, p={p}: {type(e).__name__}: {e}")]
+    out = []
+    worst = 0.0
+    if mode == "state":
+        worst = np.abs(mat(Y.vec) - ((1 - p) * mat(X.vec) + p * np.eye(d) / d)).max()
+    elif mode == "povm":
+        # measuring after depolarisation: tr(E'_x rho) = (1-p) tr(E_x rho) + p tr(E_x)/d
+        for vy, vx in zip(Y.vecs, X.vecs):
+            E = mat(vx)
+            worst = max(worst, np.abs(mat(vy) - ((1 - p) * E + p * np.trace(E) / d * np.eye(d))).max())
+    else:
+        hy = [Y.hs] if mode == "gate" else list(Y.hss)
+        hx = [X.hs] if mode == "gate" else list(X.hss)
+        for a, b in zip(hy, hx):
+            for _ in range(4):
+                rho = qobj.rand_density(g, d, rank=int(g.integers(1, d + 1)))
+                out_x = mat(b @ qobj.vec_of(c_sys, rho))
+                out_y = mat(a @ qobj.vec_of(c_sys, rho))
+                worst = max(worst, np.abs(out_y - ((1 - p) * out_x + p * np.trace(out_x) * np.eye(d) / d)).max())
+    if worst > 1e-10:
+        out.append(("mixture", f"{name} with rate {p} is not (1-p)·X + p·X_mixed (max deviation {worst:.3g} on the matrix form)"))
+    if not Y.is_physical():
+        out.append(("not-physical", f"{name} with rate {p} is not physical"))
+    return out
 
 
 def noise_clauses(ctx, g, volume):
@@ -501,39 +532,30 @@ def noise_clauses(ctx, g, volume):
     B = qobj.basis_mats(c_sys)
     d = 2
     ps = [0.0, 1.0, 0.5] + [float(x) for x in np.round(g.uniform(0, 1, 3 if ctx.quick else 12), 4)]
-    bases = [("state", "z0"), ("state", "a"), ("state", "y1"), ("povm", "x"), ("povm", "z"), ("gate", "hadamard"),
-             ("gate", "x90"), ("gate", "piover8"), ("mprocess", "z-type1"), ("mprocess", "x-type2")]
-    for mode, name in bases:
-        X = generate_qoperation(mode, name, c_sys)
+    bases = [("state", "z0", None), ("state", "a", None), ("state", "y1", None), ("povm", "x", None), ("povm", "z", None),
+             ("gate", "hadamard", None), ("gate", "x90", None), ("gate", "piover8", None),
+             ("mprocess", "z-type1", None), ("mprocess", "x-type2", None)]
+    # bases handed in as objects: non-unital gates, non-projective POVMs, general measurement processes — the order of
+    # composition with the depolarising channel is invisible on unital / projective catalogue objects
+    from quara.objects.gate import get_amplitutde_damping_channel
+    ad = get_amplitutde_damping_channel(float(np.round(g.uniform(0.2, 0.8), 3)), c_sys)
+    bases += [("state", "random-mixed", qobj.rand_state(g, c_sys)),
+              ("povm", "random-3-outcome", qobj.rand_povm(g, c_sys, 3)),
+              ("povm", "random-2-outcome-rank2", qobj.rand_povm(g, c_sys, 2)),
+              ("gate", "amplitude-damping", ad),
+              ("gate", "random-cptp", qobj.rand_gate(g, c_sys, kraus_rank=2)),
+              ("gate", "rotation-after-amplitude-damping", compose_qoperations(generate_qoperation("gate", "x90", c_sys), ad)),
+              ("mprocess", "random-3-outcome", qobj.rand_mprocess(g, c_sys, 3)[0]),
+              ("mprocess", "random-rank2", qobj.rand_mprocess(g, c_sys, 2, kraus_rank=2)[0])]
+    for mode, name, obj in bases:
+        X = obj if obj is not None else generate_qoperation(mode, name, c_sys)
         for p in ps:
-            rep = {"kind": "depol", "mode": mode, "name": name, "p": p}
-            try:
-                Y = DepolarizedQOperationGenerationSetting(c_sys, (mode, name), p).generate()
-            except Exception as e:  # noqa
-                ctx.violate(f"C15/depolarized/{mode}/raises", f"p={p}: {type(e).__name__}: {e}", rep); continue
+            rep = {"kind": "depol", "mode": mode, "name": name, "p": p,
+                   "arrays": None if obj is None else [np.array(a).tolist() for a in arrays_of(obj)]}
             ctx.case(("depol", mode, name, p), nontrivial=0 < p < 1, sample={"clause": "depolarized", "object": [mode, name], "p": p})
-            ctx.count(f"depolarized {mode}")
-            ok = True
-            mat = lambda v: sum(x * b for x, b in zip(v, B))  # noqa
-            if mode == "state":
-                ok = np.allclose(mat(Y.vec), (1 - p) * mat(X.vec) + p * np.eye(d) / d, atol=1e-12)
-            elif mode == "povm":
-                for vy, vx in zip(Y.vecs, X.vecs):
-                    E = mat(vx)
-                    ok &= np.allclose(mat(vy), (1 - p) * E + p * np.trace(E) / d * np.eye(d), atol=1e-12)
-            else:
-                hy = [Y.hs] if mode == "gate" else list(Y.hss)
-                hx = [X.hs] if mode == "gate" else list(X.hss)
-                for a, b in zip(hy, hx):
-                    for _ in range(3):
-                        rho = qobj.rand_density(g, d)
-                        out_x = mat(b @ qobj.vec_of(c_sys, rho))
-                        out_y = mat(a @ qobj.vec_of(c_sys, rho))
-                        ok &= np.allclose(out_y, (1 - p) * out_x + p * np.trace(out_x) * np.eye(d) / d, atol=1e-12)
-            if not ok:
-                ctx.violate(f"C15/depolarized/{mode}/mixture", f"{name} with rate {p} is not (1-p)·X + p·X_mixed", rep)
-            if not Y.is_physical():
-                ctx.violate(f"C15/depolarized/{mode}/not-physical", f"{name} with rate {p} is not physical", rep)
+            ctx.count(f"depolarized {mode}" + (" (object base)" if obj is not None else ""))
+            for tag, what in depol_case(c_sys, mode, name, X if obj is not None else None, p, g):
+                ctx.violate(f"C15/depolarized/{mode}/{tag}", what, rep)
     for p in (-0.01, 1.01):
         try:
             DepolarizedQOperationGenerationSetting(c_sys, ("state", "z0"), p)
@@ -763,6 +785,17 @@ def replay(ctx, data):
             for x, y in zip(base, other):
                 print("   case", x["name"], "serial estimates", [v.tolist() for v in x["est"][-1]], "| parallel", [v.tolist() for v in y["est"][-1]])
             return 1 if (want in d if want else d) else 0
+    if r["kind"] == "depol":
+        c_sys = csys1()
+        obj = None
+        if r.get("arrays"):
+            arrs = [np.array(a, dtype=np.float64) for a in r["arrays"]]
+            obj = {"state": lambda: State(c_sys, arrs[0]), "povm": lambda: Povm(c_sys, arrs),
+                   "gate": lambda: Gate(c_sys, arrs[0]), "mprocess": lambda: MProcess(c_sys, arrs)}[r["mode"]]()
+        probs = depol_case(c_sys, r["mode"], r["name"], obj, r["p"], ctx.npgen("replay"))
+        for tag, what in probs:
+            print("  PROBLEM:", tag, what)
+        return 1 if probs else 0
     before = len(ctx.violations)
     oracle(ctx)
     hit = [v for v in ctx.violations[before:] if v["signature"] == sig]
